@@ -722,7 +722,34 @@ func runNCCase(id string, c *ncCase) {
 			time.Sleep(3 * time.Millisecond) // the read loops meet the loss while nothing is in flight
 		}
 		tCall := time.Now()
-		r, err := callNC(d, o)
+		// watchdog: "every RPC returns within its configured timeout ... it never hangs"
+		type ncRes struct {
+			r   *response.NetconfResponse
+			err error
+		}
+		resCh := make(chan ncRes, 1)
+		go func() {
+			defer func() {
+				if p := recover(); p != nil {
+					resCh <- ncRes{nil, fmt.Errorf("panic: %v", p)}
+				}
+			}()
+			rr, ee := callNC(d, o)
+			resCh <- ncRes{rr, ee}
+		}()
+		var r *response.NetconfResponse
+		var err error
+		select {
+		case x := <-resCh:
+			r, err = x.r, x.err
+		case <-time.After(time.Duration(c.TimeoutMS)*time.Millisecond*4 + 3*time.Second):
+			cs.Oracle = fmt.Sprintf("request %d (%s): the call was still blocked %v after it was made (configured timeout %d ms)", i, o.Kind, time.Since(tCall).Round(time.Millisecond), c.TimeoutMS)
+			cs.Sig = "C05:nc-hang"
+			cs.Obs = "hang"
+			_ = tr.Close() // let the blocked call go
+			emit(cs)
+			return
+		}
 		if lost {
 			// after the loss: an error of connection / transport class, promptly, for EVERY later operation
 			el := time.Since(tCall)
